@@ -9,6 +9,7 @@ from pathlib import Path
 from typing import TYPE_CHECKING
 from typing import Iterable
 
+from liquid2.exceptions import LiquidValueError
 from liquid2.exceptions import TemplateNotFoundError
 from liquid2.loader import BaseLoader
 from liquid2.loader import TemplateSource
@@ -71,8 +72,12 @@ class FileSystemLoader(BaseLoader):
         raise TemplateNotFoundError(template_name)
 
     def _read(self, source_path: Path) -> tuple[str, float]:
-        with source_path.open(encoding=self.encoding) as fd:
-            source = fd.read()
+        try:
+            with source_path.open(encoding=self.encoding) as fd:
+                source = fd.read()
+        except UnicodeDecodeError as err:
+            # Not text in this loader's encoding, so not something we can parse.
+            raise LiquidValueError(f"{source_path}: {err}", token=None) from err
         return source, source_path.stat().st_mtime
 
     def get_source(
